@@ -1,7 +1,7 @@
 (* Correspondence check for C33.  Two kinds of cases:
    CU  operation.UploadData against an in-process volume server that runs the real
-       PostHandler / GetOrHeadHandler, then a raw GET and util.ReadUrlAsStream
-       (full and ranged, under recover);
+       PostHandler / GetOrHeadHandler, then a raw GET and util.ReadUrlAsStream,
+       util.ReadUrl and util.ReadUrlAsReaderCloser (full and ranged, under recover);
    CD  a malformed stream into util.DecompressData / MaybeDecompressData under recover.
    The gzip / AES-GCM / content-sniffing oracles are finite tables the harness
    fills by calling the Go standard library directly on the inputs of the case. *)
@@ -56,11 +56,23 @@ Definition oracle_of (t : tables) : oracle :=
 Record ucase := {
   uc_in : upload_in;          (* u_key: the key the client generated; u_nonce: first 12 stored bytes *)
   uc_tab : tables;
-  uc_off : N; uc_size : N;    (* the ranged request *)
+  uc_off : N; uc_size : N;    (* the request (ranged; also passed to the full fetches) *)
+  uc_buf : N;                 (* len(buf) handed to util.ReadUrl *)
   (* implementation *)
   ui_size : N; ui_gzip : bool; ui_has_key : bool; ui_mime : string (* "" unless encrypted *);
   ui_raw_status : N; ui_raw_ce : bool; ui_raw_body : bytes;   (* GET, Accept-Encoding: gzip, body as sent *)
-  ui_full : fres; ui_ranged : fres }.
+  (* util.ReadUrlAsStream with (key, gzip flag) of the upload result *)
+  ui_full : fres;             (* full chunk, (0, result size) *)
+  ui_full_at : fres;          (* full chunk, (uc_off, uc_size) *)
+  ui_ranged : fres;           (* not full, (uc_off, uc_size) *)
+  ui_handed_full : bytes; ui_handed_ranged : bytes;   (* bytes handed to fn, also when an error follows *)
+  ui_retry : bool;            (* some fetch said "retryable" *)
+  (* the same with the isContentGzipped argument NEGATED *)
+  ui_flip_full_at : fres; ui_flip_ranged : fres;
+  (* util.ReadUrl into a buffer of uc_buf bytes *)
+  ui_url_full : fres; ui_url_ranged : fres;
+  (* util.ReadUrlAsReaderCloser(url, "" / "bytes=off-(off+size-1)") + ReadAll (never decrypts) *)
+  ui_rc_full : fres; ui_rc_ranged : fres }.
 
 Record dcase := {
   dc_input : bytes;
@@ -92,41 +104,69 @@ Definition mres_eqb (a b : mres bytes) : bool :=
 
 Definition is_panic (f : fres) : bool := match f with FPanic => true | _ => false end.
 
+Definition fres_is (f : fres) (x : bytes) : bool := fres_eqb f (FOk x).
+
 Definition check_upload (c : ucase) : outcome :=
   let O := oracle_of (uc_tab c) in
   let u := uc_in c in
   let '(w, r) := upload O u in
   let n := server_store w in
+  let off := uc_off c in let size := uc_size c in
   let raw := server_get O n {| g_accept_gzip := true; g_range := None |} in
-  let full := fetch O n (r_key r) (r_gzip r) true 0 (r_size r) in
-  let ranged := fetch O n (r_key r) (r_gzip r) false (uc_off c) (uc_size c) in
-  (* the bytes the caller means *)
+  let k := r_key r in let gz := r_gzip r in
+  let rng := Some (off, size) in
+  (* the bytes the caller means (None = inside known finding 0) *)
   let clear := if u_ic u then
                  if is_gzipped_content (glib O) (u_data u) then
                    match o_gunzip O (u_data u) with GzOk x => Some x | _ => None end
                  else Some (u_data u)
                else Some (u_data u) in
+  let impl_all := [ui_full c; ui_full_at c; ui_ranged c; ui_flip_full_at c; ui_flip_ranged c;
+                   ui_url_full c; ui_url_ranged c; ui_rc_full c; ui_rc_ranged c] in
   {| o_corr :=
        (r_size r =? ui_size c) && Bool.eqb (r_gzip r) (ui_gzip c) &&
        Bool.eqb (match r_key r with Some _ => true | None => false end) (ui_has_key c) &&
        String.eqb (r_mime r) (ui_mime c) &&
        (rs_status raw =? ui_raw_status c) && Bool.eqb (rs_ce_gzip raw) (ui_raw_ce c) &&
        beqb (rs_body raw) (ui_raw_body c) &&
-       fres_eqb full (ui_full c) && fres_eqb ranged (ui_ranged c);
+       fres_eqb (fetch O n k gz true 0 (r_size r)) (ui_full c) &&
+       fres_eqb (fetch O n k gz true off size) (ui_full_at c) &&
+       fres_eqb (fetch O n k gz false off size) (ui_ranged c) &&
+       beqb (fetch_handed O n k gz true 0 (r_size r)) (ui_handed_full c) &&
+       beqb (fetch_handed O n k gz false off size) (ui_handed_ranged c) &&
+       (* the modelled server answers 200 / 206 / 416 only: retryable (status >= 500) never *)
+       negb (ui_retry c) &&
+       fres_eqb (fetch O n k (negb gz) true off size) (ui_flip_full_at c) &&
+       fres_eqb (fetch O n k (negb gz) false off size) (ui_flip_ranged c) &&
+       fres_eqb (read_url true O n k gz true 0 (r_size r) (uc_buf c)) (ui_url_full c) &&
+       fres_eqb (read_url true O n k gz false off size (uc_buf c)) (ui_url_ranged c) &&
+       fres_eqb (read_closer true O n None) (ui_rc_full c) &&
+       fres_eqb (read_closer true O n rng) (ui_rc_ranged c);
      o_prop :=
-       negb (is_panic (ui_full c)) && negb (is_panic (ui_ranged c)) &&
+       negb (existsb is_panic impl_all) &&
        match clear with
        | Some x =>
-           (ui_size c =? len x) && fres_eqb (ui_full c) (FOk x) &&
-           (if (0 <? uc_size c) && (uc_off c + uc_size c <=? len x)
-            then fres_eqb (ui_ranged c) (FOk (slice (uc_off c) (uc_size c) x))
+           let inr := (0 <? size) && (off + size <=? len x) in
+           let sl := slice off size x in
+           let plain := negb (u_cipher u) in
+           (ui_size c =? len x) && fres_is (ui_full c) x && beqb (ui_handed_full c) x &&
+           fres_is (ui_url_full c) (firstn (N.to_nat (uc_buf c)) x) &&
+           (if plain then fres_is (ui_rc_full c) x else true) &&
+           (if off + size <=? len x then fres_is (ui_full_at c) x else true) &&
+           (if inr
+            then fres_is (ui_ranged c) sl && beqb (ui_handed_ranged c) sl &&
+                 fres_is (ui_url_ranged c) (firstn (N.to_nat (uc_buf c)) sl) &&
+                 (if plain then fres_is (ui_rc_ranged c) sl else true)
             else match ui_ranged c with
-                 | FOk y => beqb y (slice (uc_off c) (uc_size c) x)   (* clamped to the end *)
+                 | FOk y => beqb y sl   (* clamped to the end *)
                  | _ => true
                  end)
-       | None => true
+       | None =>
+           (* the upload was accepted although the promised gzip stream is none: the
+              least a transparent path could do is hand the bytes back as they are *)
+           fres_is (ui_full c) (u_data u)
        end;
-     o_trig := None;
+     o_trig := if false_gzip_promise O u then Some 0 else None;
      o_nontrivial := match ui_full c with FOk (_ :: _) => true | _ => false end |}.
 
 Definition check_decompress (c : dcase) : outcome :=
